@@ -629,17 +629,23 @@ Definition arr_push (x : value) (v : value) : value :=
 
 (* ------------------------------------------------------------------ the evaluator *)
 Section Eval.
+  (* strict = the specified cancellation behaviour: a termination error is never
+     swallowed by error suppression / optional chaining, and AGGREGATE reducers
+     check the context like any call.
+     strict = false mirrors the pinned tree. *)
+  Variable strict : bool.
 
-Fixpoint eval (fuel : nat) (e : expr) (sc : frames) {struct fuel} : M value :=
+
+Fixpoint eval_g (fuel : nat) (e : expr) (sc : frames) {struct fuel} : M value :=
   match fuel with
   | O => fail OutOfFuel
   | S fuel' =>
-    let eval := eval fuel' in
+    let eval_g := eval_g fuel' in
     let eval_list :=
       (fix go (es : list expr) : M (list value) :=
          match es with
          | [] => ret []
-         | x :: r => do v <- eval x sc; do vs <- go r; ret (v :: vs)
+         | x :: r => do v <- eval_g x sc; do vs <- go r; ret (v :: vs)
          end) in
     match e with
     | ENone => ret VNone
@@ -654,8 +660,8 @@ Fixpoint eval (fuel : nat) (e : expr) (sc : frames) {struct fuel} : M value :=
            | [] => ret (VObj acc)
            | p :: r =>
                do kv <- (match p with
-                         | PNamed k e1 => do v <- eval e1 sc; ret (VStr k, v)
-                         | PComputed k e1 => do kv <- eval k sc; do v <- eval e1 sc; ret (kv, v)
+                         | PNamed k e1 => do v <- eval_g e1 sc; ret (VStr k, v)
+                         | PComputed k e1 => do kv <- eval_g k sc; do v <- eval_g e1 sc; ret (kv, v)
                          | PShort x => do v <- get_var x sc; ret (VStr x, v)
                          end);
                match kv with
@@ -671,34 +677,34 @@ Fixpoint eval (fuel : nat) (e : expr) (sc : frames) {struct fuel} : M value :=
                  | Some v => (Ok v, w)
                  | None => (Err EParamNotFound, w)
                  end
-    | EUn o a => do v <- eval a sc; ret (op_un o v)
+    | EUn o a => do v <- eval_g a sc; ret (op_un o v)
     | ELog o a b =>
-        do l <- eval a sc;
+        do l <- eval_g a sc;
         match o with
-        | LAnd => if to_bool l then eval b sc
+        | LAnd => if to_bool l then eval_g b sc
                   else ret (match l with VBool _ => VBool false | _ => l end)
-        | LOr => if to_bool l then ret l else eval b sc
+        | LOr => if to_bool l then ret l else eval_g b sc
         end
     | ECond c t f =>
-        do cv <- eval c sc;
-        if to_bool cv then match t with Some t' => eval t' sc | None => ret cv end
-        else eval f sc
-    | ECmp o a b => do l <- eval a sc; do r <- eval b sc; ret (VBool (op_cmp o l r))
-    | EIn neg a b => do l <- eval a sc; do r <- eval b sc; ret (op_in neg l r)
-    | EQuant q c a b => do l <- eval a sc; do r <- eval b sc; ret (op_quant q c l r)
+        do cv <- eval_g c sc;
+        if to_bool cv then match t with Some t' => eval_g t' sc | None => ret cv end
+        else eval_g f sc
+    | ECmp o a b => do l <- eval_g a sc; do r <- eval_g b sc; ret (VBool (op_cmp o l r))
+    | EIn neg a b => do l <- eval_g a sc; do r <- eval_g b sc; ret (op_in neg l r)
+    | EQuant q c a b => do l <- eval_g a sc; do r <- eval_g b sc; ret (op_quant q c l r)
     | ELike _ _ _ => fail OutOfDomain
     | ERegex _ _ _ => fail OutOfDomain
-    | EMath o a b => do l <- eval a sc; do r <- eval b sc; lift (op_math o l r)
-    | ERange a b => do l <- eval a sc; do r <- eval b sc; lift (op_range l r)
+    | EMath o a b => do l <- eval_g a sc; do r <- eval_g b sc; lift (op_math o l r)
+    | ERange a b => do l <- eval_g a sc; do r <- eval_g b sc; lift (op_range l r)
     | EMember src path =>
         let first_optional := match path with Seg o _ :: _ => o | [] => false end in
         fun w =>
-          match eval src sc w with
+          match eval_g src sc w with
           | (Ok m, w1) =>
               (do segs <- (fix go (p : list seg) : M (list value) :=
                              match p with
                              | [] => ret []
-                             | Seg _ se :: r => do v <- eval se sc; do vs <- go r; ret (v :: vs)
+                             | Seg _ se :: r => do v <- eval_g se sc; do vs <- go r; ret (v :: vs)
                              end) path;
                match getin fuel' m segs with
                | PVal v => ret v
@@ -709,6 +715,8 @@ Fixpoint eval (fuel : nat) (e : expr) (sc : frames) {struct fuel} : M value :=
                    | _ => fail (Err EPath)
                    end
                end) w1
+          | (Err ETerminated, w1) =>
+              if first_optional && negb strict then (Ok VNone, w1) else (Err ETerminated, w1)
           | (Err _ as o, w1) => if first_optional then (Ok VNone, w1) else (o, w1)
           | (o, w1) => (o, w1)
           end
@@ -717,16 +725,17 @@ Fixpoint eval (fuel : nat) (e : expr) (sc : frames) {struct fuel} : M value :=
         do vs <- eval_list args;
         call_fn f vs
     | ESuppress a =>
-        fun w => match eval a sc w with
+        fun w => match eval_g a sc w with
+                 | (Err ETerminated, w1) => if strict then (Err ETerminated, w1) else (Ok VNone, w1)
                  | (Err _, w1) => (Ok VNone, w1)
                  | r => r
                  end
-    | ESub q => eval_for fuel' q sc
+    | ESub q => eval_for_g fuel' q sc
     end
   end
 
 (* ForExpression.Exec *)
-with eval_for (fuel : nat) (q : forq) (sc : frames) {struct fuel} : M value :=
+with eval_for_g (fuel : nat) (q : forq) (sc : frames) {struct fuel} : M value :=
   match fuel with
   | O => fail OutOfFuel
   | S fuel' =>
@@ -736,7 +745,7 @@ with eval_for (fuel : nat) (q : forq) (sc : frames) {struct fuel} : M value :=
         | ForIn vv kv src body r => (build_ds (DIn vv kv src) vv body, r)
         | ForWhile vv dof cond body r => (build_ds (DWhile dof vv cond) vv body, r)
         end in
-      do it <- iterate fuel' d sc;
+      do it <- iterate_g fuel' d sc;
       let '(distinct, spread, pass) :=
         match ret_ with
         | RReturn dflag e => (dflag, false, match e with ENone => true | _ => false end)
@@ -746,13 +755,13 @@ with eval_for (fuel : nat) (q : forq) (sc : frames) {struct fuel} : M value :=
          match n with
          | O => fail OutOfFuel
          | S n' =>
-             do r <- next fuel' it sc;
+             do r <- next_g fuel' it sc;
              match r with
              | None => ret (VArr (rev (fr_items acc)))
              | Some (sc', it') =>
                  do out <- (match ret_ with
-                            | RReturn _ e => do _ <- check_ctx; eval fuel' e sc'
-                            | RFor q' => eval_for fuel' q' sc'
+                            | RReturn _ e => do _ <- check_ctx; eval_g fuel' e sc'
+                            | RFor q' => eval_for_g fuel' q' sc'
                             end);
                  loop n' it' (fres_push distinct spread pass out acc)
              end
@@ -760,14 +769,14 @@ with eval_for (fuel : nat) (q : forq) (sc : frames) {struct fuel} : M value :=
   end
 
 (* Iterable.Iterate for the chain of clauses *)
-with iterate (fuel : nat) (d : dsrc) (sc : frames) {struct fuel} : M iter :=
+with iterate_g (fuel : nat) (d : dsrc) (sc : frames) {struct fuel} : M iter :=
   match fuel with
   | O => fail OutOfFuel
   | S fuel' =>
       match d with
       | DIn vv kv e =>
           do _ <- check_ctx;
-          do data <- eval fuel' e sc;
+          do data <- eval_g fuel' e sc;
           match data with
           | VArr l => if bytes_eqb vv [] then fail (Err EScopeUnnamed) else ret (ItIndexed vv kv l 0)
           | VObj [] => if bytes_eqb vv [] then fail (Err EScopeUnnamed) else ret (ItIndexed vv kv [] 0)
@@ -776,18 +785,18 @@ with iterate (fuel : nat) (d : dsrc) (sc : frames) {struct fuel} : M iter :=
           end
       | DWhile dof vv cond =>
           if bytes_eqb vv [] then fail (Err EScopeUnnamed) else ret (ItWhile dof vv cond 0)
-      | DBlock d0 ss => do _ <- check_ctx; do it <- iterate fuel' d0 sc; ret (ItTap it ss)
-      | DFilter d0 e => do it <- iterate fuel' d0 sc; ret (ItFilter it e)
-      | DSort d0 ks => do it <- iterate fuel' d0 sc; ret (ItSort it ks None)
+      | DBlock d0 ss => do _ <- check_ctx; do it <- iterate_g fuel' d0 sc; ret (ItTap it ss)
+      | DFilter d0 e => do it <- iterate_g fuel' d0 sc; ret (ItFilter it e)
+      | DSort d0 ks => do it <- iterate_g fuel' d0 sc; ret (ItSort it ks None)
       | DLimit d0 cnt off =>
-          do it <- iterate fuel' d0 sc;
-          do c <- eval fuel' cnt sc;
-          do o <- eval fuel' off sc;
+          do it <- iterate_g fuel' d0 sc;
+          do c <- eval_g fuel' cnt sc;
+          do o <- eval_g fuel' off sc;
           do ci <- lift (limit_to_int c);
           do oi <- lift (limit_to_int o);
           ret (ItLimit it ci oi 0)
       | DCollect d0 gs t vv =>
-          do it <- iterate fuel' d0 sc;
+          do it <- iterate_g fuel' d0 sc;
           let src := match gs with
                      | [] => it
                      | _ => ItSort it (map (fun g => (snd g, false)) gs) None
@@ -797,7 +806,7 @@ with iterate (fuel : nat) (d : dsrc) (sc : frames) {struct fuel} : M iter :=
   end
 
 (* Iterator.Next: None = no more data *)
-with next (fuel : nat) (it : iter) (sc : frames) {struct fuel} : M (option (frames * iter)) :=
+with next_g (fuel : nat) (it : iter) (sc : frames) {struct fuel} : M (option (frames * iter)) :=
   match fuel with
   | O => fail OutOfFuel
   | S fuel' =>
@@ -806,7 +815,7 @@ with next (fuel : nat) (it : iter) (sc : frames) {struct fuel} : M (option (fram
         (fix drain (n : nat) (it : iter) (acc : list frames) : M (list frames) :=
            match n with
            | O => fail OutOfFuel
-           | S n' => do r <- next fuel' it (fork sc);
+           | S n' => do r <- next_g fuel' it (fork sc);
                      match r with
                      | None => ret (rev acc)
                      | Some (s, it') => drain n' it' (s :: acc)
@@ -823,7 +832,7 @@ with next (fuel : nat) (it : iter) (sc : frames) {struct fuel} : M (option (fram
           end
       | ItWhile dof vv cond pos =>
           do go <- (if negb dof || (0 <? pos)
-                    then do c <- eval fuel' cond sc;
+                    then do c <- eval_g fuel' cond sc;
                          ret (match c with VBool true => true | _ => false end)
                     else ret true);
           if go then
@@ -831,7 +840,7 @@ with next (fuel : nat) (it : iter) (sc : frames) {struct fuel} : M (option (fram
             ret (Some (s1, ItWhile dof vv cond (pos + 1)))
           else ret None
       | ItTap src ss =>
-          do r <- next fuel' src sc;
+          do r <- next_g fuel' src sc;
           match r with
           | None => ret None
           | Some (s, src') =>
@@ -840,8 +849,8 @@ with next (fuel : nat) (it : iter) (sc : frames) {struct fuel} : M (option (fram
               do s' <- (fix go (ss : list fclause) (s : frames) : M frames :=
                           match ss with
                           | [] => ret s
-                          | CLet x e :: r => do v <- eval fuel' e s; do s1 <- set_var x v s; go r s1
-                          | CCall e :: r => do _ <- eval fuel' e s; go r s
+                          | CLet x e :: r => do v <- eval_g fuel' e s; do s1 <- set_var x v s; go r s1
+                          | CCall e :: r => do _ <- eval_g fuel' e s; go r s
                           | _ :: r => go r s
                           end) ss s;
               ret (Some (s', ItTap src' ss))
@@ -851,11 +860,11 @@ with next (fuel : nat) (it : iter) (sc : frames) {struct fuel} : M (option (fram
              match n with
              | O => fail OutOfFuel
              | S n' =>
-                 do r <- next fuel' src (fork sc);
+                 do r <- next_g fuel' src (fork sc);
                  match r with
                  | None => ret None
                  | Some (s, src') =>
-                     do v <- eval fuel' e s;
+                     do v <- eval_g fuel' e s;
                      match v with
                      | VBool true => ret (Some (s, ItFilter src' e))
                      | _ => loop n' src'
@@ -869,7 +878,7 @@ with next (fuel : nat) (it : iter) (sc : frames) {struct fuel} : M (option (fram
                       | O => fail OutOfFuel
                       | S n' =>
                           if (off =? 0) || negb (cur <? off) then ret (Some (src, cur))
-                          else do r <- next fuel' src (fork sc);
+                          else do r <- next_g fuel' src (fork sc);
                                match r with
                                | None => ret None
                                | Some (_, src') => skip n' src' (cur + 1)
@@ -880,7 +889,7 @@ with next (fuel : nat) (it : iter) (sc : frames) {struct fuel} : M (option (fram
           | Some (src1, cur1) =>
               let cur2 := cur1 + 1 in
               if cur2 - off <=? cnt then
-                do r <- next fuel' src1 sc;
+                do r <- next_g fuel' src1 sc;
                 match r with
                 | None => ret None
                 | Some (s, src2) => ret (Some (s, ItLimit src2 cnt off cur2))
@@ -909,7 +918,7 @@ with next (fuel : nat) (it : iter) (sc : frames) {struct fuel} : M (option (fram
                                                          match ks with
                                                          | [] => ret []
                                                          | (e, d) :: kr =>
-                                                             do v <- (fun w => match eval fuel' e s w with
+                                                             do v <- (fun w => match eval_g fuel' e s w with
                                                                                | (Ok v, w') => (Ok v, w')
                                                                                | (o, w') => if first then (o, w') else (OutOfDomain, w')
                                                                                end);
@@ -950,7 +959,7 @@ with next (fuel : nat) (it : iter) (sc : frames) {struct fuel} : M (option (fram
                                                                   | (_, _, args) :: sr, col :: cr =>
                                                                       do col' <- (fix args_ (as_ : list expr) (col : list (list value)) : M (list (list value)) :=
                                                                                     match as_, col with
-                                                                                    | a :: ar, c :: cr0 => do v <- eval fuel' a s; do rest <- args_ ar cr0; ret ((c ++ [v]) :: rest)
+                                                                                    | a :: ar, c :: cr0 => do v <- eval_g fuel' a s; do rest <- args_ ar cr0; ret ((c ++ [v]) :: rest)
                                                                                     | _, _ => ret []
                                                                                     end) args col;
                                                                       do rest <- sels_ sr cr;
@@ -964,6 +973,7 @@ with next (fuel : nat) (it : iter) (sc : frames) {struct fuel} : M (option (fram
                                               match ss, cols with
                                               | (x, f, _) :: sr, col :: cr =>
                                                   let args := match scopes with [] => [] | _ => map VArr col end in
+                                                  do _ <- (if strict then check_ctx else ret tt);
                                                   do v <- call_fn f args;
                                                   do cs' <- set_var x v cs;
                                                   red sr cr cs'
@@ -979,7 +989,7 @@ with next (fuel : nat) (it : iter) (sc : frames) {struct fuel} : M (option (fram
                                    match n with
                                    | O => fail OutOfFuel
                                    | S n' =>
-                                       do r <- next fuel' src (fork sc);
+                                       do r <- next_g fuel' src (fork sc);
                                        match r with
                                        | None => ret acc
                                        | Some (ds, src') =>
@@ -987,7 +997,7 @@ with next (fuel : nat) (it : iter) (sc : frames) {struct fuel} : M (option (fram
                                                         match gs with
                                                         | [] => ret ([], cs)
                                                         | (x, e) :: gr =>
-                                                            do v <- eval fuel' e ds;
+                                                            do v <- eval_g fuel' e ds;
                                                             do cs1 <- set_var x v cs;
                                                             do rest <- gk gr cs1;
                                                             ret (v :: fst rest, snd rest)
@@ -1017,7 +1027,7 @@ with next (fuel : nat) (it : iter) (sc : frames) {struct fuel} : M (option (fram
                                              (match t with
                                               | CTInto x proj =>
                                                   do v <- (match proj with
-                                                           | Some pe => eval fuel' pe ds
+                                                           | Some pe => eval_g fuel' pe ds
                                                            | None => do cur <- get_var vv ds; ret (VObj [(vv, cur)])
                                                            end);
                                                   ret (update_nth idx (fun g => (fst g, frame0_update x (arr_push v) (snd g))) acc1)
@@ -1032,7 +1042,7 @@ with next (fuel : nat) (it : iter) (sc : frames) {struct fuel} : M (option (fram
                                                          do vals <- (fix ev (as_ : list expr) : M (list value) :=
                                                                        match as_ with
                                                                        | [] => ret []
-                                                                       | a :: ar => do v <- eval fuel' a ds; do vs <- ev ar; ret (v :: vs)
+                                                                       | a :: ar => do v <- eval_g fuel' a ds; do vs <- ev ar; ret (v :: vs)
                                                                        end) args;
                                                          ag sr (update_nth idx (fun g => (fst g, frame0_update x
                                                                  (fun m => match m with
@@ -1057,6 +1067,7 @@ with next (fuel : nat) (it : iter) (sc : frames) {struct fuel} : M (option (fram
                                                       | [] => ret cs
                                                       | (x, f, _) :: sr =>
                                                           do m <- get_var x cs;
+                                                          do _ <- (if strict then check_ctx else ret tt);
                                                           do v <- call_fn f (match m with VArr cols => cols | _ => [] end);
                                                           red sr (frame0_update x (fun _ => v) cs)
                                                       end) sels cs;
@@ -1076,19 +1087,25 @@ with next (fuel : nat) (it : iter) (sc : frames) {struct fuel} : M (option (fram
 
 End Eval.
 
+Notation eval := (eval_g true).
+Notation eval_for := (eval_for_g true).
+Notation iterate := (iterate_g true).
+Notation next := (next_g true).
+
 (* BodyExpression.Exec on the root scope *)
-Definition run_body (fuel : nat) (p : program) : M value :=
+Definition run_body_g (strict : bool) (fuel : nat) (p : program) : M value :=
   do _ <- check_ctx;
   do sc <- (fix go (ss : list stmt) (sc : frames) : M frames :=
               match ss with
               | [] => ret sc
-              | SLet x e :: r => do v <- eval fuel e sc; do sc' <- set_var x v sc; go r sc'
-              | SCall e :: r => do _ <- eval fuel e sc; go r sc
+              | SLet x e :: r => do v <- eval_g strict fuel e sc; do sc' <- set_var x v sc; go r sc'
+              | SCall e :: r => do _ <- eval_g strict fuel e sc; go r sc
               end) (p_stmts p) [[]];
   match p_ret p with
-  | BReturn e => do _ <- check_ctx; eval fuel e sc
-  | BFor q => eval_for fuel q sc
+  | BReturn e => do _ <- check_ctx; eval_g strict fuel e sc
+  | BFor q => eval_for_g strict fuel q sc
   end.
+Notation run_body := (run_body_g true).
 
 Definition init_world (params : list (name * value)) (precancel : bool) (cancel_at : option N) : world :=
   {| w_trace := []; w_cancelled := precancel; w_cancel_at := cancel_at; w_ncalls := 0;
